@@ -48,25 +48,73 @@ class Item:
 class FactBase:
     """All crates of one feature configuration."""
 
-    def __init__(self, cfg, directory):
+    def __init__(self, cfg, directory, renames=True):
         self.cfg = cfg
         self.dir = directory
+        self.renamed = {}
+        self._load(directory, None)
+        if renames:
+            mp = self._detect_renames()
+            if mp:
+                self.renamed = mp
+                self._load(directory, mp)
+
+    def _detect_renames(self):
+        """{new path: old path} for functions of the workspace that were renamed or moved since the inventory
+        (known_signatures.json) was frozen: the old path no longer exists in this configuration, the new path is not in the inventory,
+        the signature is identical, and either the enclosing module / impl or the function's own name is unchanged; only when the
+        match is unique both ways. Everything downstream then sees the old name, so a rule anchored on it keeps reading the same code."""
+        kp = os.path.join(os.path.dirname(__file__), "known_signatures.json")
+        if not os.path.exists(kp):
+            return {}
+        known = json.load(open(kp))
+        present = {p: it for p, it in self.items.items() if it.kind in ("Fn", "AssocFn") and it.crate in ("rln", "zerokit_utils") and "@" not in p}
+        missing = [p for p, e in known.items() if self.cfg in e["cfgs"] and p not in present]
+        new = [p for p in present if p not in known]
+        if not missing or not new:
+            return {}
+        sig = lambda it: [l["ty"] for l in it.locals[:it.arg_count + 1]]
+        parent = lambda p: p.rsplit("::", 1)[0]
+        last = lambda p: p.rsplit("::", 1)[-1]
+        cand = {}
+        for o in missing:
+            c = [n for n in new if sig(present[n]) == known[o]["sig"] and (parent(n) == parent(o) or last(n) == last(o))]
+            if len(c) > 1 and known[o].get("fp") is not None:
+                c2 = [n for n in c if fingerprint(present[n]) == known[o]["fp"]]
+                c = c2 if len(c2) == 1 else c
+            if len(c) == 1:
+                cand[o] = c[0]
+        used = {}
+        for o, n in cand.items():
+            used.setdefault(n, []).append(o)
+        return {n: os_[0] for n, os_ in used.items() if len(os_) == 1}
+
+    def _load(self, directory, renames):
         self.items = {}
         self.adts = {}
         self.aliases = {}
         self.crates = {}
         self._canon = None
         self.dups = {}
+        rx = None
+        if renames:
+            # longest first, whole path tokens only (a path followed by `::{closure#k}` is renamed with its parent)
+            keys = sorted(renames, key=len, reverse=True)
+            rx = re.compile("|".join(r"(?<![A-Za-z0-9_])" + re.escape(k) + r"(?![A-Za-z0-9_])" for k in keys))
         for fn in sorted(os.listdir(directory)):
             if not fn.endswith(".json"):
                 continue
             with open(os.path.join(directory, fn)) as f:
-                d = json.load(f)
+                if rx is None:
+                    d = json.load(f)
+                else:
+                    # JSON-escaped text: the paths contain no characters that JSON escapes
+                    d = json.loads(rx.sub(lambda m_: renames[m_.group(0)], f.read()))
             crate = d["crate"]
             self.crates[fn[:-5]] = {"crate": crate, "features": d["features"], "crate_types": d["crate_types"],
                                     "n_items": len(d["items"])}
             for it in d["items"]:
-                item = Item(it, crate, cfg)
+                item = Item(it, crate, self.cfg)
                 # the same path may exist in lib and bin facts of a package; keep first.  Two different items can also
                 # print the same path (impls of two traits re-exported under one name): keep both, the later one
                 # under path@file:line
@@ -121,6 +169,19 @@ class FactBase:
 
     def closures_of(self, parent_path):
         return [it for p, it in sorted(self.items.items()) if it.kind == "Closure" and it.get("parent") == parent_path]
+
+
+def fingerprint(it):
+    """a name-independent summary of a function body, used only to tell apart several functions of one signature when one of them
+    was renamed: number of basic blocks and the sorted names of the callees outside the workspace"""
+    cs = []
+    for b in it.blocks:
+        t = b["term"]
+        if t["k"] == "call":
+            n = t.get("resolved") or t.get("callee") or ""
+            if not n.startswith(("rln::", "zerokit_utils::")) and "rln::" not in n[:12]:
+                cs.append(n)
+    return [len(it.blocks), sorted(cs)]
 
 
 WS_CRATES = ("zerokit_utils::", "rln::", "rln_cli::", "zkfix::")
